@@ -177,6 +177,11 @@ EXTRA = [
     "def nada_main():\n    p = Party(name='P')\n    y = h(Integer(3))\n    z = [y]\n    return []\n",
     "from nada_dsl import *\nbase: int = 5\ndef nada_main():\n    p = Party(name='P')\n    y = base + 1\n    return []\nbase: str = 'five'\n",
     "from nada_dsl import *\nn = 'a'\ndef nada_main():\n    p = Party(name='P')\n    y = n\n    z = [y]\n    return []\nfor n in range(2):\n    m = n\n",
+    # a definition that rebinds a module-level name other functions were typed with; the library imported again after a helper took a name
+    "from nada_dsl import *\nK = 1\ndef g() -> int:\n    return K\ndef K() -> int:\n    return 2\ndef nada_main():\n    p = Party(name='P')\n    y = g()\n    z = [y]\n    return []\n",
+    "from nada_dsl import *\ndef f(a: Integer) -> Integer:\n    return a\ndef g(a: Integer) -> Integer:\n    return f(a)\ndef f(a: Integer) -> str:\n    return 's'\n"
+    "def nada_main():\n    p = Party(name='P')\n    y = g(Integer(1))\n    z = [y]\n    return []\n",
+    "from nada_dsl import *\ndef Party(x: int) -> int:\n    return x\nfrom nada_dsl import *\ndef nada_main():\n    q = Party(1)\n    z = [q]\n    return []\n",
     # the target of an inner loop is a variable that the enclosing loop's body reads
     "from nada_dsl import *\ndef nada_main():\n    p = Party(name='P')\n    j = Integer(1)\n    for i in range(2):\n        y = j\n        for j in range(1):\n            z = j\n    return []\n",
     "from nada_dsl import *\ndef nada_main():\n    p = Party(name='P')\n    a = SecretInteger(Input(name='a', party=p))\n    t = a\n    for i in range(2):\n        for k2 in range(2):\n"
